@@ -2,6 +2,7 @@ import MpdProofs.Lemmas.Skeleton
 import MpdProofs.Lemmas.LoopInv
 import Mpd.Client
 import MpdProofs.Lemmas.StreamRun
+import MpdProofs.Lemmas.EndToEnd
 /-!
 # C01 — every request is answered with its own reply, in issue order
 
@@ -54,8 +55,9 @@ theorem C01_replies_from_stream (s0 s : Loop.St) (D : Bytes) (h0 : Loop.AfterGre
     ∃ cs : List (Loop.Consumer × Builder.Response),
       (∀ q, Loop.Decodes .initial (D ++ q) (cs.map (·.2)) (Loop.future s q)) ∧
       Loop.Attr cs (Loop.responses s.obs) (Loop.eventsOf s.obs) ∧
-      (Loop.Terminal s ∨ Loop.replyWrites s.obs = cs.map (·.1) ++ Loop.outstanding s.pc) :=
-  (Loop.run_decodes s0 s D h0 hr).2
+      (Loop.Terminal s ∨ Loop.replyWrites s.obs = cs.map (·.1) ++ Loop.outstanding s.pc) := by
+  obtain ⟨cs, h1, h2, h3, _⟩ := (Loop.run_decodes s0 s D h0 hr).2
+  exact ⟨cs, h1, h2, h3⟩
 
 /-- **pairing by position**, all runs: the j-th response of the stream is consumed by the consumer
 of the j-th reply-producing line written (a request's caller, the idle loop, the password verdict),
@@ -66,6 +68,88 @@ theorem C01_one_outstanding (s0 s : Loop.St) (D : Bytes) (h0 : Loop.AfterGreetin
       (∀ q, Loop.Decodes .initial (D ++ q) (cs.map (·.2)) (Loop.future s q)) ∧
       Loop.replyWrites s.obs = cs.map (·.1) ++ Loop.outstanding s.pc ∧ (Loop.outstanding s.pc).length ≤ 1 :=
   Loop.one_outstanding s0 s D h0 hr
+
+/-- **end to end at byte level**: with a peer whose stream is the concatenation of the encodings of
+its well-formed replies (the i-th one answering the i-th reply-producing line it received), the i-th
+response the task consumes is the view of the i-th reply, consumed by the consumer of the i-th
+reply-producing line written -/
+theorem C01_pairing_end_to_end (s0 s : Loop.St) (D : Bytes) (h0 : Loop.AfterGreeting s0) (hr : Loop.Run s0 s D)
+    (srv : List Spec.AbsResp) (hwf : ∀ r ∈ srv, Spec.WF r = true) (tail : Bytes)
+    (hD : D ++ tail = srv.flatMap Spec.enc) :
+    ∃ cs : List (Loop.Consumer × Builder.Response),
+      Loop.Attr cs (Loop.responses s.obs) (Loop.eventsOf s.obs) ∧
+      (Loop.Terminal s ∨ Loop.replyWrites s.obs = cs.map (·.1) ++ Loop.outstanding s.pc) ∧
+      (∃ rest, Loop.replyWrites s.obs = cs.map (·.1) ++ rest) ∧
+      cs.length ≤ srv.length ∧
+      ∀ i, i < cs.length → (cs.map (·.2))[i]? = (srv.map Loop.viewResp)[i]? :=
+  Loop.pairing_end_to_end s0 s D h0 hr srv hwf tail hD
+
+/-- **every caller gets the reply to its own request** (byte level, all runs, FIFO peer) -/
+theorem C01_caller_gets_own_reply (s0 s : Loop.St) (D : Bytes) (h0 : Loop.AfterGreeting s0) (hr : Loop.Run s0 s D)
+    (srv : List Spec.AbsResp) (hwf : ∀ r ∈ srv, Spec.WF r = true) (tail : Bytes)
+    (hD : D ++ tail = srv.flatMap Spec.enc) (id : Nat) (r : Builder.Response)
+    (hmem : (id, r) ∈ Loop.responses s.obs) :
+    ∃ i : Nat, (srv.map Loop.viewResp)[i]? = some r ∧
+      (Loop.replyWrites s.obs)[i]? = some (Loop.Consumer.reply id) :=
+  Loop.caller_gets_own_reply s0 s D h0 hr srv hwf tail hD id r hmem
+
+/-! ### non-vacuity: a concrete run — idle, a request arrives, `noidle`, the idle reply, the request,
+its reply — satisfies the premises, and the caller's result is what the theorem says -/
+namespace Example
+open Loop
+
+def brokenB (s : St) : Bool :=
+  match (pollRecv { s with fresh := false } (σcur s)).2 with
+  | .ready it => !it.isResp
+  | .pending _ => false
+
+theorem not_broken_of (s : St) (h : brokenB s = false) : ¬ Broken s := by
+  rintro ⟨it, hit, hp⟩
+  unfold brokenB at h
+  rw [hp] at h
+  simp [hit] at h
+
+def after (s : St) : St := (step s false).getD s
+
+theorem run_after {s0 s : St} {D : Bytes} (hr : Run s0 s D) (h : (step s false).isSome = true)
+    (hb : brokenB s = false) : Run s0 (after s) D := by
+  cases hs : step s false with
+  | none => rw [hs] at h; cases h
+  | some s' =>
+    have : after s = s' := by unfold after; rw [hs]; rfl
+    rw [this]
+    exact .task s' false hr hs (not_broken_of s hb)
+
+def s0 : St := { pc := .spawned, obs := [.connected (.ok (str "0.23.5"))] }
+def s1 : St := after s0                                                   -- `idle` written
+def s2 : St := { s1 with queue := [{ id := 1, bytes := str "ping\n" }], senders := 2 }   -- a caller enqueues
+def s3 : St := after s2                                                   -- `noidle` written
+def s4 : St := { s3 with avail := s3.avail ++ str "changed: mixer\nOK\n" }             -- the idle reply arrives
+def s5 : St := after s4                                                   -- event, request written
+def s6 : St := { s5 with avail := s5.avail ++ str "foo: bar\nOK\n" }                   -- its reply arrives
+def s7 : St := after s6                                                   -- the caller is answered
+
+theorem run7 : Run s0 s7 (str "changed: mixer\nOK\n" ++ str "foo: bar\nOK\n") := by
+  have r1 : Run s0 s1 [] := run_after .start (by decide +kernel) (by decide +kernel)
+  have r2 : Run s0 s2 [] := .env s2 r1 ⟨rfl, rfl, rfl, rfl, rfl⟩
+  have r3 : Run s0 s3 [] := run_after r2 (by decide +kernel) (by decide +kernel)
+  have r4 : Run s0 s4 ([] ++ str "changed: mixer\nOK\n") := .deliver _ r3
+  have r5 := run_after r4 (by decide +kernel) (by decide +kernel)
+  have r6 : Run s0 s6 ([] ++ str "changed: mixer\nOK\n" ++ str "foo: bar\nOK\n") := .deliver _ r5
+  have r7 : Run s0 s7 ([] ++ str "changed: mixer\nOK\n" ++ str "foo: bar\nOK\n") :=
+    run_after r6 (by decide +kernel) (by decide +kernel)
+  rw [List.nil_append] at r7
+  exact r7
+
+example : AfterGreeting s0 :=
+  ⟨by decide, by simp [resid, σcur, s0], by simp [responses, s0], by simp [eventsOf, s0],
+   by simp [replyWrites, outstanding, s0]⟩
+
+/-- what the run observed: the event, then the caller's own reply -/
+example : (eventsOf s7.obs, (responses s7.obs).map (·.1), replyWrites s7.obs) =
+    ([str "mixer"], [1], [.idle, .reply 1]) := by decide +kernel
+
+end Example
 
 /-- one step: the reply resolved for the request in flight is exactly the next response of the stream -/
 theorem C01_step_effect (s s' : Loop.St) (rf : Bool) (hc : s.pc ≠ .connecting) (h : Loop.step s rf = some s') :
